@@ -174,6 +174,47 @@ func init() {
 		return TupleV{st.newByteSlice(st.sliceBytes(v)), IfaceV{}}, true
 	}
 
+	// ---- sync.Pool: LIFO free list; Get returns a pooled object (if any) or New() ----
+	// struct Pool{noCopy, local, localSize, victim, victimSize, New}: the model keeps the free list in a side object
+	// hung off field `local` (unsafe.Pointer slot is unused by the model).
+	exact["(*sync.Pool).Put"] = func(e *Engine, st *State, fn *ssa.Function, args []Value, retTo *ssa.Call) (Value, bool) {
+		pp := args[0].(Ptr)
+		cell := Ptr{pp.Obj, pathAppend(pp.Path, 1)}
+		cur, _ := st.load(cell).(Ptr)
+		var items []Value
+		if cur.Obj != 0 {
+			items = append(items, st.obj(cur.Obj).V.(*ArrayV).E...)
+		}
+		items = append(items, args[1])
+		st.store(cell, Ptr{Obj: st.alloc(&ArrayV{E: items})})
+		return nil, true
+	}
+	exact["(*sync.Pool).Get"] = func(e *Engine, st *State, fn *ssa.Function, args []Value, retTo *ssa.Call) (Value, bool) {
+		pp := args[0].(Ptr)
+		cell := Ptr{pp.Obj, pathAppend(pp.Path, 1)}
+		cur, _ := st.load(cell).(Ptr)
+		if cur.Obj != 0 {
+			items := st.obj(cur.Obj).V.(*ArrayV).E
+			if n := len(items); n > 0 {
+				it := items[n-1]
+				st.store(cell, Ptr{Obj: st.alloc(&ArrayV{E: append([]Value(nil), items[:n-1]...)})})
+				return it, true
+			}
+		}
+		// New is the last field
+		ps := st.load(pp).(*StructV)
+		newFn, _ := ps.F[len(ps.F)-1].(FuncV)
+		if newFn.Fn == nil {
+			return IfaceV{}, true
+		}
+		e.callClosure(st, newFn, nil, func(st *State, res Value) {
+			if retTo != nil {
+				st.top().regs[retTo] = res
+			}
+		}, nil)
+		return pendingV, true
+	}
+
 	// ---- protobuf ----
 	exact["google.golang.org/protobuf/proto.Marshal"] = func(e *Engine, st *State, fn *ssa.Function, args []Value, retTo *ssa.Call) (Value, bool) {
 		m := args[0].(IfaceV)
